@@ -379,6 +379,7 @@ def run(ctx):
     w6(ctx)
     w7(ctx)
     w8(ctx)
+    w9(ctx)
 
 
 def w6(ctx):
@@ -417,6 +418,22 @@ def w7(ctx):
             parts = o.key.split("|")
             ctx.ob("W7", parts[1], parts[2], o.where, o.ok, o.detail)
     ctx.floor("W7", "handshake awaits inspected in TCP accept loops (C08 L2)", 1, n)
+
+
+def w9(ctx):
+    """W9: a flow whose first byte in a direction comes after a pause is still a flow: the header that direction is opened with must be stamped when it is
+    written (C10 V1c re-evaluated), otherwise the peer refuses it as stale and nothing of that direction arrives."""
+    from ..engine import Ctx
+    from . import c10
+    sub = Ctx(ctx.prog, "C10", ctx.tier)
+    c10.run(sub)
+    n = 0
+    for o in sub.obs:
+        if o.rule == "V1c":
+            n += 1
+            parts = o.key.split("|")
+            ctx.ob("W9", parts[1], parts[2], o.where, o.ok, o.detail)
+    ctx.floor("W9", "header timestamps inspected (C10 V1c)", 1, n)
 
 
 def w8(ctx):
